@@ -29,6 +29,8 @@ type c14Case struct {
 	RelCmd  bool     `json:"rel_cmd"` // the command is named relative to the run directory (./emit-local)
 	Linger  int      `json:"linger"`  // >0: the command leaves a background process holding the streams for that many ms
 	Norm    bool     `json:"norm,omitempty"` // InTotoRun with line normalisation of ARTIFACTS switched on
+	Prelude []string `json:"prelude,omitempty"` // an earlier command of the same process (emit operations)
+	Stdio   string   `json:"stdio,omitempty"`   // the calling process's own stdout/stderr: "" captured | devfull | closed
 }
 
 var c14Sizes = []int{0, 1, 61, 122, 6100, 67100, 4095, 4096, 65535, 65536, 65537, 70000, 131072, 200000, 1 << 20, 4 << 20}
@@ -64,6 +66,11 @@ func c14Gen(t *rapid.T) c14Case {
 		}
 	}
 	c.RelCmd = c.WorkDir != "" && rapid.Bool().Draw(t, "relcmd")
+	if rapid.IntRange(0, 4).Draw(t, "prelude") == 0 {
+		// the process ran another command before: a big one (its buffers are gone when this one starts)
+		c.Prelude = []string{rapid.SampledFrom([]string{"o", "e", "O"}).Draw(t, "preludestream") + ":" + strconv.Itoa(rapid.SampledFrom([]int{1 << 20, 1200000, 2 << 20, 70000}).Draw(t, "preludesize")), "e:100", "x:3"}
+	}
+	c.Stdio = rapid.SampledFrom([]string{"", "", "", "devfull", "closed"}).Draw(t, "stdio")
 	c.Norm = c.Via == "intotorun" && rapid.Bool().Draw(t, "norm")
 	if rapid.IntRange(0, 14).Draw(t, "linger") == 0 {
 		c.Linger = rapid.SampledFrom([]int{700, 900}).Draw(t, "lingerms")
@@ -200,6 +207,13 @@ func c14Run(c c14Case, r *hx.Rec) error {
 		_ = os.WriteFile(runDir, []byte("x"), 0o644)
 	}
 	req := map[string]any{"mode": c.Via, "args": args, "run_dir": runDir, "dsse": c.DSSE, "norm": c.Norm}
+	if len(c.Prelude) > 0 && c.Broken == "" {
+		req["prelude"] = [][]string{append([]string{emit}, c.Prelude...)}
+		r.Label("after-another-command")
+	}
+	if c.Stdio != "" {
+		r.Label("caller-stdio=%s", c.Stdio)
+	}
 	rb, _ := json.Marshal(req)
 	reqPath, respPath := filepath.Join(dir, "req.json"), filepath.Join(dir, "resp.json")
 	_ = os.WriteFile(reqPath, rb, 0o644)
@@ -234,10 +248,10 @@ func c14Run(c c14Case, r *hx.Rec) error {
 	if c.RelCmd {
 		r.Label("relative-command")
 	}
-	r.Key("%v|%s|%s|%s|%v|%s|%v|%d|%v", c.Ops, c.End, c.Via, c.WorkDir, c.DSSE, c.Broken, c.RelCmd, c.Linger, c.Norm)
+	r.Key("%v|%s|%s|%s|%v|%s|%v|%d|%v|%v|%s", c.Ops, c.End, c.Via, c.WorkDir, c.DSSE, c.Broken, c.RelCmd, c.Linger, c.Norm, c.Prelude, c.Stdio)
 
 	deadline := 30 * time.Second
-	res := hx.Supervise([]string{"run", reqPath, respPath}, dir, deadline)
+	res := hx.SuperviseStdio([]string{"run", reqPath, respPath}, dir, deadline, c.Stdio)
 	if res.TimedOut {
 		if res.Diagnosis != "" {
 			return fmt.Errorf("%s did not return within %s for script %v %s: %s", c.Via, deadline, c.Ops, c.End, res.Diagnosis)
@@ -325,7 +339,7 @@ func TestC14(t *testing.T) {
 	hx.Assume("for death by signal there is no exit status: asserted non-zero only (-1 is today's value, recorded in notes)")
 	hx.Check[c14Case]{
 		Property: "C14", Part: "scripts",
-		Rule:  "emit scripts: 0-5 segments on stdout/stderr with sizes from {0,1,4095,4096,65535,65536,65537,70000,131072,200000,1MiB,4MiB} or random, optional early close of a stream, sleeps, then exit 0..255 / self-signal / fall off the end; called through RunCommand and InTotoRun (by-products, both wrappers) in an isolated worker process, with and without a run directory; plus missing executable, empty argv, non-executable file, directory; non-trivial = >64KiB on one stream while both are open, or a broken command; distinct by (script, call path)",
+		Rule:  "emit scripts: 0-5 segments on stdout/stderr with sizes from {0,1,4095,4096,65535,65536,65537,70000,131072,200000,1MiB,4MiB} or random, optional early close of a stream, sleeps, then exit 0..255 / self-signal / fall off the end; called through RunCommand and InTotoRun (by-products, both wrappers) in an isolated worker process, with and without a run directory, sometimes after a large-output command of the same process, sometimes with the caller's own stdout/stderr unwritable or closed; plus missing executable, empty argv, non-executable file, directory; non-trivial = >64KiB on one stream while both are open, or a broken command; distinct by (script, call path)",
 		Cases: hx.Pick(400, 30000),
 		Gen:   c14Gen, Run: c14Run,
 	}.Execute(t)
